@@ -390,7 +390,8 @@ def freetext_step(cls: int, seg: int, soll: bool, inp: int, fc: bool, flag2: boo
         raise xs.HarnessError(f"evaluation stub called {ncalls} times")
     d = dict(cls=cls, seg=seg, soll=soll, inp=inp, fc=fc, flag2=flag2)
     soll_c = bool(xs.R(soll))
-    name = f"free-text element: expression evaluates to {ev[:3]}, segment status {segst}, soll_is_required={soll_c}, input {INPUTS[inp]!r}"
+    with xs.nt():
+        name = f"free-text element: expression evaluates to {ev[:3]}, segment status {segst}, soll_is_required={soll_c}, input {INPUTS[inp]!r}"
 
     def obs(g):
         if g[0] != "ok":
@@ -455,7 +456,8 @@ def valuepool_step(n: int, c0: int, c1: int, c2: int, seg: int, inp: int, y0: in
     xs.reached()
     d = dict(n=n, c0=c0, c1=c1, c2=c2, seg=seg, inp=inp, y0=y0)
     want = refval.valuepool([(QUALS[i], evs[i]) for i in range(n)], segst.value, VP_INPUTS[inp])
-    name = f"value pool {[(QUALS[i], ('fulfilled', 'unfulfilled', 'undetermined', 'invalid expression')[cs[i]]) for i in range(n)]}, segment status {segst.value}, entered {VP_INPUTS[inp]!r}"
+    with xs.nt():
+        name = f"value pool {[(QUALS[i], ('fulfilled', 'unfulfilled', 'undetermined', 'invalid expression')[cs[i]]) for i in range(n)]}, segment status {segst.value}, entered {VP_INPUTS[inp]!r}"
     if got[0] != "ok":
         if MODE in ("C17", "C16"):
             return xs.fail(f"{name}: {got[0]} {got[1]}", **d)
